@@ -72,17 +72,9 @@ fn involution_body<const M: usize>() {
     crate::witness!(M > 1 && f[0][0] != f[M - 1][2], "asymmetric matrix");
 }
 
-/// frequency and weight matrices (valid frequencies on the lattice k/64)
+/// frequency and weight matrices (frequencies produced by the real `to_freq`)
 fn involution_freq_body<const M: usize>() {
-    let mut d = DenseMatrix::<f32, U5>::new(M);
-    for i in 0..M {
-        for j in 0..5 {
-            d[i][j] = (nd::u8_in(0, 64) as f32) / 64.0;
-        }
-    }
-    let r = FrequencyMatrix::<Dna>::new(d.clone());
-    nd::assume(r.is_ok());
-    let fm = r.unwrap();
+    let (fm, d) = crate::c09_convert::freq_from_counts::<M>();
     let rf = fm.reverse_complement();
     assert!(rf.reverse_complement() == fm, "frequency matrix: rc twice is not the identity");
     let wm = fm.to_weight(None);
@@ -154,11 +146,11 @@ fn strand_body<const M: usize, const L: usize>() {
 }
 
 //@ C10 quick 900 rc involution + mirrored cells, count and scoring matrices, M=2, arbitrary cells
-harness!(none, 8, c10_involution_m2, involution_body::<2>());
+harness!(none, 24, c10_involution_m2, involution_body::<2>());
 //@ C10 quick 900 rc involution + mirrored cells, count and scoring matrices, M=3
-harness!(none, 8, c10_involution_m3, involution_body::<3>());
+harness!(none, 24, c10_involution_m3, involution_body::<3>());
 //@ C10 quick 1800 rc involution, frequency and weight matrices, M=2
-harness!(none, 8, c10_involution_freq_m2, involution_freq_body::<2>());
+harness!(none, 24, c10_involution_freq_m2, involution_freq_body::<2>());
 //@ C10 quick 2400 rc commutes with to_freq/to_scoring/to_weight, symmetric background, M=2
 log_harness!(8, c10_commute_m2, commute_body::<2>());
 //@ C10 quick 1800 opposite-strand score identity, M=2, L=5, symbolic matrix and sequence
@@ -166,7 +158,7 @@ harness!(none, 8, c10_strand_m2_l5, strand_body::<2, 5>());
 //@ C10 quick 1800 opposite-strand score identity, M=3, L=6
 harness!(none, 8, c10_strand_m3_l6, strand_body::<3, 6>());
 //@ C10 thorough 3600 rc involution, M=1
-harness!(none, 8, c10_involution_m1, involution_body::<1>());
+harness!(none, 24, c10_involution_m1, involution_body::<1>());
 //@ C10 thorough 5400 rc commutes with conversions, M=3
 log_harness!(8, c10_commute_m3, commute_body::<3>());
 //@ C10 thorough 3600 opposite-strand score identity, M=1, L=4
